@@ -227,9 +227,9 @@ def registry(workdir=None):
         Opt("fsrc", "output_size", ["4", "8", "16", "5"], setup=FSRC + ["opt p0 set uri f1"], end=["rel p0", "rel x0"],
             inp=lambda k: ["c20run 1"]),
         # position and range are live values of a source (reading moves them): no reading in these scripts
-        Opt("fsrc", "position", ["0", "4", "10", "31"], setup=FSRC + ["opt p0 set uri f1"], end=["rel p0", "rel x0"],
+        Opt("fsrc", "position", ["0", "4", "10", "31", "9223372036854775813"], setup=FSRC + ["opt p0 set uri f1"], end=["rel p0", "rel x0"],
             inp=lambda k: ["c20run 0"], datapath=False),
-        Opt("fsrc", "range", ["0,8", "4,4", "4,8", "2,16", "30,1"], setup=FSRC + ["opt p0 set uri f1"], end=["rel p0", "rel x0"],
+        Opt("fsrc", "range", ["0,8", "4,4", "4,8", "2,16", "30,1", "9223372036854775813,16"], setup=FSRC + ["opt p0 set uri f1"], end=["rel p0", "rel x0"],
             inp=lambda k: ["c20run 0"], datapath=False),
         Opt("multicat_sink", "rotate", ["1000,0", "500,100", "1000,7", "27000,5", "2,0", "1,0", "0,0"], inp=pumped(size=4, step=700),
             setup=["new p0 c.multicat_sink", "opt p0 set flow_def block.A.", "opt p0 set path a_,.x"], end=FEND),
